@@ -252,6 +252,31 @@ func (r *Runner) RunCheck(ck *Check, tier string, seed int, filter string) int {
 	for _, l := range violLines {
 		fmt.Println(l)
 	}
+	// native validation of reference models / contracts: a sample of the cases that held, on random inputs
+	if os.Getenv("VERIF_NOSELF") == "" {
+		per := 2
+		if tier != "quick" {
+			per = 6
+		}
+		byH := map[string][]Case{}
+		for i := range results {
+			if results[i].Status == sym.StatusOK {
+				byH[results[i].Case.Harness+"|"+results[i].Case.Config] = append(byH[results[i].Case.Harness+"|"+results[i].Case.Config], results[i].Case)
+			}
+		}
+		var sample []Case
+		for _, cs := range byH {
+			sort.Slice(cs, func(i, j int) bool { return cs[i].Key() < cs[j].Key() })
+			for k := 0; k < per && k < len(cs); k++ {
+				sample = append(sample, cs[(k*(len(cs)-1))/max(per-1, 1)])
+			}
+		}
+		n, bad := SelfTest(ck.ID, sample, 2, filepath.Join(workDir, "self"))
+		replays += n
+		for _, b := range bad {
+			inconclusive = append(inconclusive, "MODEL-MISMATCH: "+b)
+		}
+	}
 	if len(reachMissing) > 0 {
 		inconclusive = append(inconclusive, fmt.Sprintf("vacuity: %d cases never reached their end witness, e.g. %s", len(reachMissing), reachMissing[0]))
 	}
